@@ -34,17 +34,26 @@ class BrentsRootFinder:
         self.next_abscissa: Optional[float] = None
 
     def get_next_abscissa(self) -> float:
-        if abs(self.fc - self.fa) < self.epsilon or abs(self.fc - self.fb) < self.epsilon:
-            # Secant method
-            dx = self.fb * (self.b - self.a) / (self.fa - self.fb)
-        else:
-            # Inverse quadratic interpolation
-            s = self.fb / self.fa
-            r = self.fb / self.fc
-            t = self.fa / self.fc
-            q = (t - 1) * (s - 1) * (r - 1)
-            p = s * (t * (r - t) * (self.c - self.b) + (r - 1) * (self.b - self.a))
-            dx = p / q
+        interpolation_failed = False
+        try:
+            if (
+                abs(self.fc - self.fa) < self.epsilon
+                or abs(self.fc - self.fb) < self.epsilon
+            ):
+                # Secant method
+                dx = self.fb * (self.b - self.a) / (self.fa - self.fb)
+            else:
+                # Inverse quadratic interpolation
+                s = self.fb / self.fa
+                r = self.fb / self.fc
+                t = self.fa / self.fc
+                q = (t - 1) * (s - 1) * (r - 1)
+                p = s * (t * (r - t) * (self.c - self.b) + (r - 1) * (self.b - self.a))
+                dx = p / q
+        except ZeroDivisionError:
+            # Ordinates that are exactly zero make the interpolation degenerate
+            interpolation_failed = True
+            dx = 0.0
 
         # Use bisection instead of interpolation
         # if the interpolation is not within bounds.
@@ -54,7 +63,8 @@ class BrentsRootFinder:
         delta_cd = abs(self.c - self.d)
         delta_ab = self.a - self.b
         if (
-            (adx >= abs(3 * delta_ab / 4) or dx * delta_ab < 0)
+            interpolation_failed
+            or (adx >= abs(3 * delta_ab / 4) or dx * delta_ab < 0)
             or (self.bisection and adx >= delta_bc / 2)
             or (not self.bisection and adx >= delta_cd / 2)
             or (self.bisection and delta_bc < delta)
